@@ -16,7 +16,7 @@
 //	                                            adds the check groups `funcs` and `funcs_<owner>`
 //
 // Groups: rlp_fields, tx_dispatch, merge_fields, commit_order (+durable_outside_commit),
-// nondeterminism, panic_sites, constants. Sites are keyed by (package, function, kind, detail) and
+// nondeterminism, panic_sites, constants, ledger_views (views.go), persist_sites (persist.go). Sites are keyed by (package, function, kind, detail) and
 // expressions are rendered independently of import aliases and of the receiver's name ("self"),
 // so moving code, renaming a receiver or an import alias is harmless; renaming a function is not.
 package main
@@ -91,6 +91,7 @@ func main() {
 	expectDir := flag.String("expect", "", "directory of expectation files (default <verif>/expect)")
 	update := flag.Bool("update-expect", false, "regenerate the expectation files from the current tree (keeps notes/classes)")
 	verbose := flag.Bool("v", false, "print the checks to stderr")
+	dumpViews := flag.Bool("dump-views", false, "debug: print the ledger_views inventory to stdout")
 	why := flag.String("why", "", "debug: print a call path from each entry-point set to the functions whose pkg:name contains this string")
 	flag.Parse()
 	if *expectDir == "" {
@@ -229,6 +230,43 @@ func main() {
 	c.Summary = fmt.Sprintf("%d constants; %s", len(consts), verdict(c.Problems))
 	checks["constants"] = c
 
+	// 7b. ledger_views: which overlay of a ledger every call site uses, and in which execution context
+	views, vmissing := pr.scanViews()
+	var vhard []string
+	for _, m := range vmissing {
+		vhard = append(vhard, "entry point not found: "+m)
+	}
+	c = checkViews(*expectDir, views, vhard, *update)
+	vsum, vstats := viewsSummary(views)
+	c.Summary = vsum + "; " + verdict(c.Problems)
+	checks["ledger_views"] = c
+	facts["ledger_views"] = M{"sites": views, "summary": vstats}
+	if *dumpViews {
+		for _, s := range views {
+			fmt.Printf("%-52s %-34s %-28s %-20s %-44s %-18s x%d  %s\n", s.Func, s.Recv, s.Method, s.View, s.Context, s.Var, s.Count, s.Rule)
+		}
+	}
+
+	// 7c. persist_sites: writes to durable meta stores outside the ledgers' Commit, with guard and value
+	persist := pr.scanPersist()
+	c = checkPersist(*expectDir, persist, *update)
+	{
+		guarded := 0
+		for _, s := range persist {
+			if s.Guard != "" {
+				guarded += s.Count
+			}
+		}
+		c.Summary = fmt.Sprintf("%d durable meta-store write sites (%d guarded); %s", len(persist), guarded, verdict(c.Problems))
+	}
+	checks["persist_sites"] = c
+	facts["persist_sites"] = M{"sites": persist}
+	if *dumpViews {
+		for _, s := range persist {
+			fmt.Printf("PERSIST %s | %s | %s | [%s] | (%s) | {%s}\n", s.Func, s.Call, s.API, s.Guard, s.Value, strings.Join(s.Defs, "; "))
+		}
+	}
+
 	// 8. funcs (only with -funcs): Go -> Lean translation of the whitelisted pure functions
 	funcsText, funcsCheckText := "", ""
 	if *funcsOut != "" {
@@ -258,7 +296,7 @@ func main() {
 		}
 	}
 	if *leanOut != "" {
-		if err := writeIfChanged(*leanOut, []byte(leanFile(pr, facts, flat, nondet, panics))); err != nil {
+		if err := writeIfChanged(*leanOut, []byte(leanFile(pr, facts, flat, nondet, panics, views, persist))); err != nil {
 			fmt.Fprintln(os.Stderr, "rigoextract:", err)
 			os.Exit(1)
 		}
